@@ -141,6 +141,7 @@ class Attr:
     value: str | None
     doc: str = ""
     instance: bool = False   # assigned in __init__ as self.name
+    chained: bool = False    # written `name = name = value`: one attribute
 
 
 @dataclass
@@ -337,7 +338,8 @@ def cls_src(c: Cls, style: str, indent: str) -> str:
     for a in c.attrs:
         if not a.instance:
             ann = f": {a.ann.src()}" if a.ann is not None else ""
-            body += f"{indent}    {a.name}{ann}" + (f" = {a.value}" if a.value is not None else "") + "\n"
+            chain = f" = {a.name}" if a.chained and a.ann is None and a.value is not None else ""
+            body += f"{indent}    {a.name}{ann}{chain}" + (f" = {a.value}" if a.value is not None else "") + "\n"
     for ic in c.inner:
         body += "\n" + (enum_src(ic, style, indent + "    ") if isinstance(ic, Enum_) else cls_src(ic, style, indent + "    "))
     if c.init is not None:
@@ -738,7 +740,7 @@ def gen_class(rng, names: Names, refs, tvs, *, private=False, depth=1, docs=True
             src, val = rng.choice([d for d in LIT_DEFAULTS if d[1] is not None])
             c.attrs.append(Attr(an, ann_for_default(val), src))
         else:
-            c.attrs.append(Attr(an, None, "1"))   # untyped: mypy infers int
+            c.attrs.append(Attr(an, None, "1", chained=len(c.attrs) % 2 == 1))   # untyped: mypy infers int
     if rng.random() < 0.6:
         ps = gen_params(rng, names, refs, tvs, maxn=3, keywords=keywords)
         body = []
